@@ -197,3 +197,10 @@ Fixpoint r_run (r : rstate) (ops : list rop) : rstate * list (list tok) :=
   | [] => (r, [])
   | o :: t => let '(r1, out) := r_step r o in let '(r2, outs) := r_run r1 t in (r2, out :: outs)
   end.
+
+(* newRenderer: framerate = time.Second / time.Duration(clamped fps) (Go integer division) *)
+From Coq Require Import ZArith.
+From BTGen Require Consts.
+Definition r_framerate_ns (fps : Z) : Z :=
+  let f := if (fps <? 1)%Z then Consts.c_defaultFPS else if (Consts.c_maxFPS <? fps)%Z then Consts.c_maxFPS else fps in
+  Z.quot 1000000000 f.
